@@ -15,8 +15,18 @@ package cgnat
 // callbacks that are still pending, newest first.
 //
 // IPv4 addresses are decimal uint32.  Subscriber k is InsideVRF k>>16, InsideIP 10.0.(k>>8&255).(k&255); the
-// component always passes VRF 0, so comp cases use k < 65536.
+// sessions of subscriber k >= 65536 carry VRF name "vrf<k>>16>", which the harness' vrf manager resolves to table
+// id k>>16.
+//
+//	mp <cfg tokens of p1> || <cfg tokens of p2> | v a:P:k g:P:k r:P:k R:P:k:ip:s:e I:P:k:ip:s:e d
+//
+// two pools on one PoolManager (P = 1 or 2); v = cgnat.Config.Validate of the two-pool configuration.  When it
+// rejects the configuration the case ends there (the loader would refuse it).
+// Late dataplane adds:  L:sid:k activates with the add left in flight, K:sid:ok runs its callback.
 import (
+	"reflect"
+	"unsafe"
+
 	"bufio"
 	"context"
 	"encoding/json"
@@ -38,7 +48,41 @@ import (
 	"github.com/veesix-networks/osvbng/pkg/models"
 	"github.com/veesix-networks/osvbng/pkg/opdb"
 	"github.com/veesix-networks/osvbng/pkg/southbound"
+	"github.com/veesix-networks/osvbng/pkg/vrfmgr"
 )
+
+// a vrfmgr.Manager that resolves vrf1..vrf7 to table ids 1..7 without touching netlink: its private map is filled
+// through reflection
+func vf15VRFManager() *vrfmgr.Manager {
+	m := vrfmgr.New(nil)
+	f := reflect.ValueOf(m).Elem().FieldByName("vrfs")
+	if !f.IsValid() {
+		return m
+	}
+	f = reflect.NewAt(f.Type(), unsafe.Pointer(f.UnsafeAddr())).Elem()
+	mp := reflect.MakeMap(f.Type())
+	for i := 1; i <= 7; i++ {
+		e := reflect.New(f.Type().Elem().Elem())
+		set := func(name string, v interface{}) {
+			fl := e.Elem().FieldByName(name)
+			if fl.IsValid() {
+				reflect.NewAt(fl.Type(), unsafe.Pointer(fl.UnsafeAddr())).Elem().Set(reflect.ValueOf(v))
+			}
+		}
+		set("Name", fmt.Sprintf("vrf%d", i))
+		set("TableID", uint32(i))
+		set("IPv4", true)
+		mp.SetMapIndex(reflect.ValueOf(fmt.Sprintf("vrf%d", i)), e)
+	}
+	f.Set(mp)
+	return m
+}
+func vf15VRFName(k uint64) string {
+	if k>>16 == 0 {
+		return ""
+	}
+	return fmt.Sprintf("vrf%d", k>>16)
+}
 
 // ---- fakes ----
 type vf15Bus struct{ events.Bus }
@@ -53,12 +97,18 @@ type vf15DP struct {
 	delCount   int
 	deferred   []func()
 	bulk       int
+	lateSid    string
+	lateAdds   map[string]func(error)
 }
 
 func (d *vf15DP) CGNATAddDelSubscriberMappingAsync(poolID, swIfIndex uint32, insideIP net.IP, insideVRFID uint32,
 	outsideIP net.IP, portStart, portEnd uint16, enableFeature, isAdd bool, callback func(error)) {
 	if isAdd {
 		d.addCalls = append(d.addCalls, fmt.Sprintf("dp %d %d %d", vf15IPNum(outsideIP), portStart, portEnd))
+		if d.lateSid != "" {
+			d.lateAdds[d.lateSid] = callback
+			return
+		}
 		if d.asyncOK {
 			callback(nil)
 		} else {
@@ -175,6 +225,7 @@ func vf15Key(vrf uint32, ip net.IP) uint64 {
 func vf15Num(s string) uint64 { n, _ := strconv.ParseUint(s, 10, 64); return n }
 
 type vf15Env struct {
+	name   string
 	raw    *cgnatcfg.Pool
 	pm     *PoolManager
 	c      *Component
@@ -210,13 +261,16 @@ type vf15M struct {
 func (e *vf15Env) all() []vf15M {
 	var l []vf15M
 	for _, m := range e.pm.GetAllMappings() {
+		if m.PoolName != e.name {
+			continue
+		}
 		l = append(l, vf15M{vf15Key(m.InsideVRFID, m.InsideIP), vf15IPNum(m.OutsideIP), int(m.PortBlockStart), int(m.PortBlockEnd)})
 	}
 	return l
 }
 
 func (e *vf15Env) dump(comp bool) string {
-	ps := e.pm.pools["p1"]
+	ps := e.pm.pools[e.name]
 	// subscribers in key order, blocks in list order
 	keys := []uint64{}
 	byk := map[uint64]string{}
@@ -252,7 +306,7 @@ func (e *vf15Env) dump(comp bool) string {
 	if len(bits) == 0 {
 		bits = []string{"-"}
 	}
-	st := e.pm.GetPoolStats("p1")
+	st := e.pm.GetPoolStats(e.name)
 	// the property evaluated on the externally visible mappings
 	all := e.all()
 	flags := []string{}
@@ -398,7 +452,7 @@ func vf15Mapping(k uint64, ip uint64, s, en uint64, vrfFromK bool) *models.CGNAT
 		OutsideIP: vf15IP(ip), PortBlockStart: uint16(s), PortBlockEnd: uint16(en), SwIfIndex: 7}
 }
 
-func vf15Setup(kind string, f []string) (*vf15Env, error) {
+func vf15ParseRaw(f []string) (*cgnatcfg.Pool, error) {
 	raw := &cgnatcfg.Pool{Mode: "pba", OutsideInterfaces: []string{"eth0"},
 		InsidePrefixes: []cgnatcfg.InsidePrefix{{Prefix: "10.0.0.0/8"}}}
 	for _, t := range f {
@@ -441,16 +495,28 @@ func vf15Setup(kind string, f []string) (*vf15Env, error) {
 			}
 		}
 	}
-	e := &vf15Env{raw: raw, pm: NewPoolManager()}
+	return raw, nil
+}
+
+func (e *vf15Env) geometry() {
+	e.bs = int(e.raw.GetBlockSize())
+	e.pstart = int(e.raw.GetPortRangeStart())
+	e.pend = int(e.raw.GetPortRangeEnd())
+	e.max = int(e.raw.GetMaxBlocksPerSubscriber())
+	e.paired = e.raw.GetAddressPooling() == "paired"
+}
+
+func vf15Setup(kind string, f []string) (*vf15Env, error) {
+	raw, err := vf15ParseRaw(f)
+	if err != nil {
+		return nil, err
+	}
+	e := &vf15Env{name: "p1", raw: raw, pm: NewPoolManager()}
 	if err := e.pm.ConfigurePool("p1", 1, raw); err != nil {
 		return nil, err
 	}
-	e.bs = int(raw.GetBlockSize())
-	e.pstart = int(raw.GetPortRangeStart())
-	e.pend = int(raw.GetPortRangeEnd())
-	e.max = int(raw.GetMaxBlocksPerSubscriber())
-	e.paired = raw.GetAddressPooling() == "paired"
-	e.dp = &vf15DP{asyncOK: true}
+	e.geometry()
+	e.dp = &vf15DP{asyncOK: true, lateAdds: map[string]func(error){}}
 	e.store = &vf15Store{ns: map[string]map[string][]byte{}}
 	e.sp = &vf15Provider{sessions: map[string]models.SubscriberSession{}}
 	cfg := &config.Config{CGNAT: &cgnatcfg.Config{Pools: map[string]*cgnatcfg.Pool{"p1": raw}}}
@@ -461,6 +527,7 @@ func vf15Setup(kind string, f []string) (*vf15Env, error) {
 		dataplane:       e.dp,
 		opdb:            e.store,
 		cfgMgr:          &vf15Cfg{cfg: cfg},
+		vrfMgr:          vf15VRFManager(),
 		pools:           e.pm,
 		reverse:         NewReverseIndex(),
 		bypass:          NewBypassManager(),
@@ -476,7 +543,7 @@ func vf15Setup(kind string, f []string) (*vf15Env, error) {
 func (e *vf15Env) lifecycle(sid string, k uint64, state models.SessionState) *events.SessionLifecycleEvent {
 	return &events.SessionLifecycleEvent{AccessType: models.AccessTypeIPoE, SessionID: sid, State: state,
 		Session: &models.IPoESession{SessionID: sid, AccessType: string(models.AccessTypeIPoE), IfIndex: 7,
-			IPv4Address: vf15SubIP(k)}}
+			IPv4Address: vf15SubIP(k), VRF: vf15VRFName(k)}}
 }
 
 func (e *vf15Env) dpResult() string {
@@ -491,57 +558,38 @@ func (e *vf15Env) op(kind string, tok string) string {
 	n := func(i int) uint64 { return vf15Num(a[i]) }
 	ctx := context.Background()
 	if kind == "pool" {
-		switch a[0] {
-		case "a":
-			m, err := e.pm.AllocateBlock("p1", vf15SubIP(n(1)), vf15SubVRF(n(1)), 7)
-			if err != nil {
-				return vf15ErrKind(err)
-			}
-			return fmt.Sprintf("ok new %d %d %d", vf15IPNum(m.OutsideIP), m.PortBlockStart, m.PortBlockEnd)
-		case "g":
-			m, isNew, err := e.pm.GetOrAllocate("p1", vf15SubIP(n(1)), vf15SubVRF(n(1)), 7)
-			if err != nil {
-				return vf15ErrKind(err)
-			}
-			w := "old"
-			if isNew {
-				w = "new"
-			}
-			return fmt.Sprintf("ok %s %d %d %d", w, vf15IPNum(m.OutsideIP), m.PortBlockStart, m.PortBlockEnd)
-		case "r":
-			if err := e.pm.ReleaseBlocks("p1", vf15SubIP(n(1)), vf15SubVRF(n(1))); err != nil {
-				return "err"
-			}
-			return "ok"
-		case "R", "I":
-			m := vf15Mapping(n(1), n(2), n(3), n(4), true)
-			var err error
-			if a[0] == "R" {
-				err = e.pm.RestoreMapping(m)
-			} else {
-				err = e.pm.RestoreMappingIfAbsent(m)
-			}
-			if err != nil {
-				return "err"
-			}
-			return "ok"
-		case "d":
-			return e.dump(false)
-		}
-		return "badop"
+		return e.poolOp(a)
 	}
 	e.dp.addCalls = nil
 	e.dp.asyncOK = true
 	e.dp.delPattern = ""
 	e.dp.delCount = 0
 	e.dp.bulk = 0
+	e.dp.lateSid = ""
 	switch a[0] {
+	case "L":
+		e.dp.lateSid = a[1]
+		e.c.handleSessionActivate(e.lifecycle(a[1], n(2), models.SessionStateActive))
+		e.dp.lateSid = ""
+		return e.dpResult()
+	case "K":
+		cb, ok := e.dp.lateAdds[a[1]]
+		if !ok {
+			return "ok"
+		}
+		delete(e.dp.lateAdds, a[1])
+		if a[2] == "1" {
+			cb(nil)
+		} else {
+			cb(fmt.Errorf("injected late dataplane add failure"))
+		}
+		return "ok"
 	case "A":
 		e.dp.asyncOK = a[3] == "1"
 		e.c.handleSessionActivate(e.lifecycle(a[1], n(2), models.SessionStateActive))
 		return e.dpResult()
 	case "S":
-		m := vf15Mapping(n(3), n(4), n(5), n(6), false)
+		m := vf15Mapping(n(3), n(4), n(5), n(6), true)
 		m.SessionID = a[1]
 		if len(a) > 7 {
 			e.dp.asyncOK = a[7] == "1"
@@ -564,7 +612,7 @@ func (e *vf15Env) op(kind string, tok string) string {
 		e.c.handleSessionRelease(e.lifecycle(a[1], n(2), models.SessionStateReleased))
 		return "ok"
 	case "P", "D":
-		m := vf15Mapping(n(2), n(3), n(4), n(5), false)
+		m := vf15Mapping(n(2), n(3), n(4), n(5), true)
 		m.SessionID = a[1]
 		if len(a) > 6 {
 			e.dp.bulk = int(n(6))
@@ -577,7 +625,7 @@ func (e *vf15Env) op(kind string, tok string) string {
 		e.sp.sessions = map[string]models.SubscriberSession{}
 		if a[0] == "P" {
 			e.sp.sessions[a[1]] = &models.IPoESession{SessionID: a[1], AccessType: string(models.AccessTypeIPoE), IfIndex: 9,
-				IPv4Address: vf15SubIP(n(2))}
+				IPv4Address: vf15SubIP(n(2)), VRF: vf15VRFName(n(2))}
 		} else {
 			e.store.Put(ctx, opdb.NamespaceIPoESessions, a[1], []byte("{}"))
 		}
@@ -603,6 +651,111 @@ func (e *vf15Env) op(kind string, tok string) string {
 	return "badop"
 }
 
+func (e *vf15Env) poolOp(a []string) string {
+	n := func(i int) uint64 { return vf15Num(a[i]) }
+	switch a[0] {
+	case "a":
+		m, err := e.pm.AllocateBlock(e.name, vf15SubIP(n(1)), vf15SubVRF(n(1)), 7)
+		if err != nil {
+			return vf15ErrKind(err)
+		}
+		return fmt.Sprintf("ok new %d %d %d", vf15IPNum(m.OutsideIP), m.PortBlockStart, m.PortBlockEnd)
+	case "g":
+		m, isNew, err := e.pm.GetOrAllocate(e.name, vf15SubIP(n(1)), vf15SubVRF(n(1)), 7)
+		if err != nil {
+			return vf15ErrKind(err)
+		}
+		w := "old"
+		if isNew {
+			w = "new"
+		}
+		return fmt.Sprintf("ok %s %d %d %d", w, vf15IPNum(m.OutsideIP), m.PortBlockStart, m.PortBlockEnd)
+	case "r":
+		if err := e.pm.ReleaseBlocks(e.name, vf15SubIP(n(1)), vf15SubVRF(n(1))); err != nil {
+			return "err"
+		}
+		return "ok"
+	case "R", "I":
+		m := vf15Mapping(n(1), n(2), n(3), n(4), true)
+		m.PoolName = e.name
+		var err error
+		if a[0] == "R" {
+			err = e.pm.RestoreMapping(m)
+		} else {
+			err = e.pm.RestoreMappingIfAbsent(m)
+		}
+		if err != nil {
+			return "err"
+		}
+		return "ok"
+	case "d":
+		return e.dump(false)
+	}
+	return "badop"
+}
+
+// two pools on one PoolManager
+func vf15MP(head string, ops []string) []string {
+	halves := strings.SplitN(head, " || ", 2)
+	if len(halves) != 2 {
+		return []string{"badline"}
+	}
+	raw1, err1 := vf15ParseRaw(strings.Fields(halves[0])[1:])
+	raw2, err2 := vf15ParseRaw(strings.Fields(halves[1]))
+	if err1 != nil || err2 != nil {
+		return []string{"cfgerr"}
+	}
+	pm := NewPoolManager()
+	envs := map[string]*vf15Env{"1": {name: "p1", raw: raw1, pm: pm}, "2": {name: "p2", raw: raw2, pm: pm}}
+	var outs []string
+	configured := false
+	for _, tok := range ops {
+		a := strings.Split(tok, ":")
+		if a[0] == "v" {
+			cfg := &cgnatcfg.Config{Pools: map[string]*cgnatcfg.Pool{"p1": raw1, "p2": raw2}}
+			if err := cfg.Validate(); err != nil {
+				outs = append(outs, "invalid")
+				return outs
+			}
+			outs = append(outs, "valid")
+			continue
+		}
+		if !configured {
+			if err := pm.ConfigurePool("p1", 1, raw1); err != nil {
+				return append(outs, "cfgerr")
+			}
+			if err := pm.ConfigurePool("p2", 2, raw2); err != nil {
+				return append(outs, "cfgerr")
+			}
+			envs["1"].geometry()
+			envs["2"].geometry()
+			configured = true
+		}
+		if a[0] == "d" {
+			// the property across pools, on the externally visible mappings
+			x := "none"
+			all := pm.GetAllMappings()
+			for i, m := range all {
+				for _, o := range all[i+1:] {
+					same := m.PoolName == o.PoolName && vf15Key(m.InsideVRFID, m.InsideIP) == vf15Key(o.InsideVRFID, o.InsideIP)
+					if !same && m.OutsideIP.Equal(o.OutsideIP) && m.PortBlockStart <= o.PortBlockEnd && o.PortBlockStart <= m.PortBlockEnd {
+						x = "XOVERLAP"
+					}
+				}
+			}
+			outs = append(outs, "P1{"+envs["1"].dump(false)+"} P2{"+envs["2"].dump(false)+"} flags="+x)
+			continue
+		}
+		e, ok := envs[a[1]]
+		if !ok || len(a) < 3 {
+			outs = append(outs, "badop")
+			continue
+		}
+		outs = append(outs, e.poolOp(append([]string{a[0]}, a[2:]...)))
+	}
+	return outs
+}
+
 func vf15Case(line string) (res string) {
 	parts := strings.SplitN(line, " | ", 2)
 	f := strings.Fields(parts[0])
@@ -623,6 +776,14 @@ func vf15Case(line string) (res string) {
 				outs = append(outs, "panic "+strings.ReplaceAll(msg, " ", "_"))
 			}
 		}()
+		if kind == "mp" {
+			var ops []string
+			if len(parts) == 2 {
+				ops = strings.Fields(parts[1])
+			}
+			outs = append(outs, vf15MP(parts[0], ops)...)
+			return
+		}
 		e, err := vf15Setup(kind, f[1:])
 		if err != nil {
 			outs = append(outs, "cfgerr")
